@@ -277,8 +277,15 @@ def run_family(fam, rng, rec, log, counters):
             for gl in est.coords["global_clp_label"].values:
                 for ml in est.coords["clp_label"].values:
                     worst = max(worst, abs(float(est.sel(global_clp_label=gl, clp_label=ml)) - (1.0 if str(gl) == str(ml) else 0.0)))
-            if not worst <= 1e-6:
-                rec.violation(f"clp-not-recovered:{name}", ctx, f"{d}: the estimated full-model coefficients differ from the identity by label by {worst:.3e}")
+            # the stay check admits a relative parameter drift of 1e-6; the coefficients of the Kronecker design react to
+            # it with the product of the two condition numbers (a mislabelled coefficient is off by 1)
+            try:
+                kap = float(np.linalg.cond(np.asarray(r0.data[d].matrix.values, dtype=float))) * float(np.linalg.cond(np.asarray(r0.data[d].global_matrix.values, dtype=float)))
+            except Exception:  # noqa
+                kap = 1e4
+            tol_id = min(1e-2, 1e-6 * max(1.0, kap))
+            if not worst <= tol_id:
+                rec.violation(f"clp-not-recovered:{name}", ctx, f"{d}: the estimated full-model coefficients differ from the identity by label by {worst:.3e} (tolerance {tol_id:.1e})")
                 return False
     if not full:
         for d in data:
